@@ -277,6 +277,118 @@ MALFORMED = [
 ]
 
 
+# nested ensembles (FullStack in a base / in the scope of another FullStack), debug operators inside ensembles, label
+# operators in the scope and in the bases of ensembles: hand-picked, always evaluated (with probe and bare)
+def _w(stateful=True):
+    return ['wrap', NONE, [0, stateful], [0, stateful]]
+
+
+def _lab(stateful=True):
+    return ['wrap', [0, stateful], NONE, NONE]
+
+
+def _dbg():
+    return ['debug', [0, False], [0, True]]
+
+
+def _stk(bases, n=2):
+    return ['stack', list(bases), n, 0, 0, 0, 0]
+
+
+def _seq(*xs):
+    tree = xs[0]
+    for x in xs[1:]:
+        tree = ['seq', tree, x]
+    return tree
+
+
+CORPUS_NESTED = [
+    # a stack in the bases of a stack
+    _stk([_stk([_w()])]),
+    _stk([_stk([_w()]), _w(False)], 3),
+    _stk([_seq(_w(), _stk([_w()]))]),
+    _stk([_seq(_stk([_w()]), _w())]),
+    _stk([_stk([_w(), ['mapreduce', [[0, True], [0, False]], 0]], 3)]),
+    _seq(_w(), _stk([_seq(_lab(), _stk([_seq(_dbg(), _w())]))])),
+    # a stack in the scope of a stack
+    _seq(_stk([_w()]), _stk([_w()])),
+    _seq(_seq(_w(), _stk([_w()])), _stk([_w()])),
+    _seq(_seq(_stk([_w()]), _w()), _stk([_w()])),
+    _seq(_w(), _seq(_stk([_w()]), _stk([_w()]))),
+    _seq(_seq(_lab(), _stk([_w()], 3)), _stk([_w(), _w(False)])),
+    # both
+    _seq(_stk([_w()]), _stk([_stk([_w()])])),
+    _seq(_seq(_dbg(), _stk([_seq(_lab(), _w())])), _stk([_seq(_dbg(), _w())])),
+    # debug operators inside ensembles (base = debug alone / debug >> estimator / estimator >> debug; debug in the scope)
+    _stk([_dbg()]),
+    _stk([_seq(_dbg(), _w())]),
+    _stk([_seq(_w(), _dbg()), _w()]),
+    _seq(_dbg(), _stk([_w()])),
+    _seq(_seq(_w(), _dbg()), _stk([_seq(_dbg(), _w())], 3)),
+    # label operators in the scope and in the bases of ensembles
+    _seq(_lab(), _stk([_w()])),
+    _seq(_seq(_lab(), _w()), _stk([_w()])),
+    _seq(_seq(_w(), _lab(False)), _stk([_seq(_lab(), _w())])),
+    _seq(['wrap', [0, True], [0, True], [0, True]], _stk([['wrap', [0, True], [1, True], [1, True]]])),
+    _seq(_lab(), _seq(_lab(), _stk([_w()]))),
+    _seq(_seq(_dbg(), _w()), _stk([_w()])),
+    _seq(_w(), _seq(_dbg(), _stk([_w(), _w(False)]))),
+    _stk([_seq(_lab(), _w()), _w()]),
+]
+
+
+def _mentions(ast, pred) -> bool:
+    if pred(ast):
+        return True
+    if ast[0] == 'seq':
+        return _mentions(ast[1], pred) or _mentions(ast[2], pred)
+    if ast[0] == 'stack':
+        return any(_mentions(b, pred) for b in ast[1])
+    return False
+
+
+def _is_stack(ast) -> bool:
+    return ast[0] == 'stack'
+
+
+def _is_debug(ast) -> bool:
+    return ast[0] == 'debug'
+
+
+def _is_label(ast) -> bool:
+    return ast[0] == 'wrap' and ast[1] != NONE
+
+
+def features(ast) -> set:
+    """Which of the shapes the nested-ensemble stream is about occur in `ast`. The scope of an ensemble is the left
+    operand of the `>>` whose right operand it is (`A >> (B >> stack)`: `B`), its bases are expanded on their own."""
+    out = set()
+    k = ast[0]
+    if k == 'seq':
+        left, right = ast[1], ast[2]
+        out |= features(left) | features(right)
+        if right[0] == 'stack':
+            if _mentions(left, _is_stack):
+                out.add('stack-in-scope')
+            if _mentions(left, _is_debug):
+                out.add('debug-in-scope')
+            if _mentions(left, _is_label):
+                out.add('label-in-scope')
+    elif k == 'stack':
+        for base in ast[1]:
+            out |= features(base)
+            if _mentions(base, _is_stack):
+                out.add('stack-in-base')
+            if _mentions(base, _is_debug):
+                out.add('debug-in-base')
+            if _mentions(base, _is_label):
+                out.add('label-in-base')
+    return out
+
+
+FEATURES = ('stack-in-base', 'stack-in-scope', 'debug-in-base', 'debug-in-scope', 'label-in-base', 'label-in-scope')
+
+
 class C03(fw.Check):
     ID = 'C03'
     LEAN_MODULES = ['ForML.Props.C03']
@@ -287,6 +399,9 @@ class C03(fw.Check):
             'as documented in docs/workflow/operator.rst) x stateful/stateless symbolic actors x parenthesisations: '
             'hand-picked corpus, every expression up to 2 (quick) / 4 (thorough) leaves over the basic wrap alphabet and up to 3 '
             'over the extended one, all parenthesisations of random 5-leaf sequences, random expressions up to 12 leaves; '
+            'a nested-ensemble stream (hand-picked + random: FullStack inside a base / inside the scope of another FullStack, '
+            'both, debug operators inside bases and scopes of ensembles, label operators in scopes and bases; in every '
+            'parenthesisation with a neighbouring operator; the quick tier must evaluate every one of these six shapes); '
             'each with a stateful probe mapper appended (reveals the final train features and labels) and a third of them '
             'also bare. A case is the expression (tags renumbered); non-trivial when it has >= 2 leaves or a compound operator. '
             'Implementation = flow.Composition(source, expr): train and apply segment compiled and interpreted, the apply '
@@ -318,9 +433,12 @@ class C03(fw.Check):
         ]
         out = [pg.retag(c) for c in CORPUS]
         seen = set()
-        for n in range(1, self.n(2, 4) + 1):
+        # exhaustive depths are not case counts: the framework's escalation (quick tier on a changed source tree: counts x4)
+        # adds one level, not two (8^4 x 5 expressions would turn the quick tier into the thorough one)
+        deeper = 1 if self.quick and self.escalation > 1 else 0
+        for n in range(1, (2 + deeper if self.quick else 4) + 1):
             out.extend(pg.enumerate_exprs(n, basic))
-        for n in range(1, self.n(1, 3) + 1):
+        for n in range(1, (1 + deeper if self.quick else 3) + 1):
             out.extend(pg.enumerate_exprs(n, extended))
         # all parenthesisations of random leaf sequences of length 3..5
         for _ in range(self.n(4, 60)):
@@ -337,6 +455,8 @@ class C03(fw.Check):
         # random larger ones
         for _ in range(self.n(120, 2000)):
             out.append(gen.expr(rng.randint(2, 12)))
+        # nested ensembles, debug operators inside ensembles, label operators in scopes (also in the quick tier)
+        out.extend(self._nested(gen))
         # operators written against the public API, alone and mixed with library operators in every parenthesisation
         out.extend(pg.retag(c) for c in CORPUS_API)
         customs = [['custom', [0, True]], ['custom', [0, False]]]
@@ -354,7 +474,7 @@ class C03(fw.Check):
             cases.append(with_probe(ast))
             # a third also bare; thorough: every expression up to 3 leaves also bare, the exhaustive 4-leaf sweep only
             # with the probe (budget)
-            bare = rng.random() < 0.34
+            bare = rng.random() < 0.34 or key in getattr(self, '_always_bare', ())
             if not self.quick:
                 nl = pg.leaves(ast)
                 bare = nl <= 3 or (bare and (nl != 4 or pg.kinds(ast) != {'wrap'}))
@@ -366,6 +486,91 @@ class C03(fw.Check):
                 seen.add(sexp.dumps(ast))
                 cases.append(ast)
         return cases
+
+    def _nested(self, gen) -> list:
+        """Hand-picked nested ensembles (each also bare) + random ones: an inner ensemble in a base or in the scope of an
+        outer one, with random stack-free neighbours (incl. debug and label operators), 2-3 folds, 1-2 bases, in every
+        parenthesisation with an optional operator before / after. Oversize provenance terms are re-drawn."""
+        rng = self.rng
+        out = [pg.retag(c) for c in CORPUS_NESTED]
+        self._always_bare = {sexp.dumps(c) for c in out}
+        self._spec_cache = {}
+
+        def chain(n):
+            return gen.expr(n, depth=1, stack=False)
+
+        def spice():
+            r = rng.random()
+            if r < 0.3:
+                return _dbg()
+            if r < 0.6:
+                return rng.choice([_lab(True), _lab(False), pg.wrap_leaf('label+mapper', [True, True])])
+            return chain(1)
+
+        def stack(bases, folds=None):
+            return _stk(bases, folds or rng.choice([2, 2, 2, 3]))
+
+        def inner():
+            bases = [chain(rng.choice([1, 1, 2]))]
+            if rng.random() < 0.25:
+                bases.append(spice())
+            return stack(bases)
+
+        def in_base():
+            core = inner()
+            r = rng.random()
+            if r < 0.35:
+                base = core
+            elif r < 0.6:
+                base = _seq(spice(), core)
+            elif r < 0.85:
+                base = _seq(core, spice())
+            else:
+                base = ['seq', spice(), ['seq', core, chain(1)]]
+            bases = [base]
+            if rng.random() < 0.3:
+                bases.insert(rng.randrange(2), chain(1))
+            return stack(bases)
+
+        def in_scope():
+            first = inner()
+            r = rng.random()
+            if r < 0.3:
+                scope = first
+            elif r < 0.55:
+                scope = _seq(spice(), first)
+            elif r < 0.8:
+                scope = _seq(first, spice())
+            else:
+                scope = ['seq', spice(), ['seq', first, spice()]]
+            second = in_base() if rng.random() < 0.2 else stack([chain(rng.choice([1, 1, 2]))] + ([spice()] if rng.random() < 0.2 else []))
+            return ['seq', scope, second]
+
+        def spiced_flat():
+            # debug / label operators in the scope and in the bases of a single ensemble
+            bases = [rng.choice([_seq(spice(), chain(1)), _seq(chain(1), spice()), spice()])]
+            if rng.random() < 0.3:
+                bases.append(chain(1))
+            return ['seq', _seq(spice(), chain(1)) if rng.random() < 0.5 else spice(), stack(bases)]
+
+        want = self.n(36, 500)
+        tries = 0
+        while want and tries < 40 * self.n(36, 500):
+            tries += 1
+            core = rng.choice([in_base, in_base, in_scope, in_scope, spiced_flat])()
+            items = [core]
+            if rng.random() < 0.4:
+                items.insert(0, spice())
+            if rng.random() < 0.4:
+                items.append(spice())
+            trees = [pg.retag(t) for t in pg.parenthesisations(items)]
+            specs = {sexp.dumps(with_probe(t)): self._oracle_canon(with_probe(t)) for t in trees}
+            if any(v is None for v in specs.values()):
+                continue
+            self._spec_cache.update(specs)
+            out.extend(trees)
+            want -= 1
+        return out
 
     # ---- one batch: implementation, model, oracle ----------------------------------------------
     @staticmethod
@@ -444,10 +649,13 @@ class C03(fw.Check):
         return ok
 
     def _evaluate(self, asts: list, account: bool = True) -> list:
+        if not hasattr(self, '_feature_count'):
+            self._feature_count = {}
         specs, kept = [], []
         oversize = 0
+        cache = getattr(self, '_spec_cache', {})
         for ast in asts:
-            spec = self._oracle_canon(ast)
+            spec = cache.pop(sexp.dumps(ast), None) or self._oracle_canon(ast)
             if spec is None:
                 oversize += 1
                 continue
@@ -468,7 +676,11 @@ class C03(fw.Check):
             if account:
                 kinds = pg.kinds(ast)
                 nl = pg.leaves(ast)
-                bucket = f'leaves={nl if nl <= 6 else "7+"} ' + '+'.join(sorted(k for k in kinds))
+                feats = features(ast)
+                for f in feats:
+                    self._feature_count[f] = self._feature_count.get(f, 0) + 1
+                bucket = f'leaves={nl if nl <= 6 else "7+"} ' + '+'.join(sorted(k for k in kinds)) + ''.join(
+                    ' ' + f for f in FEATURES if f in feats)
                 self.case(sexp.dumps(ast), bucket, nontrivial=nl >= 2 or bool(kinds - {'wrap'}),
                           sample={'expr': sexp.dumps(ast), 'train': spec['train'][:200]} if nl >= 3 else None)
             verdicts.append(self._compare(ast, spec, real, mrun, mden))
@@ -508,6 +720,11 @@ class C03(fw.Check):
         self._selftest()
         cases = self._cases()
         self._evaluate(cases)
+        counts = {f: self._feature_count.get(f, 0) for f in FEATURES}
+        self.notes.append('nested-ensemble stream, cases evaluated per shape: ' + ', '.join(f'{f}={n}' for f, n in counts.items()))
+        thin = [f for f, n in counts.items() if n < 8]
+        if thin:
+            raise fw.MachineryError(f'generator did not reach the shapes {thin} (nested ensembles / debug / label operators in ensembles)')
         self._malformed()
         bad = sexp.loads(self.model(['(run (wrap none))'])[0])
         if bad != 'bad-op':
